@@ -418,7 +418,7 @@ fn oracle(c: &Case, st: &mut Stats) -> Result<(), String> {
             o.keys |= 2;
         }
         let next = format!("a{}.mla", i + 1);
-        if (i as u8 + c.reader_key) % 2 == 1 {
+        if (i + c.reader_key as usize) % 2 == 1 {
             // the output archive replaces a longer stale file of that name
             plant_stale(&d.join(&next), 2 * std::fs::metadata(d.join(&archive)).map(|m| m.len() as usize).unwrap_or(0) + 4096)?;
         }
